@@ -136,7 +136,8 @@ def oracle(world, case, conf, atts, dropped, accepted, res):
             return
         if a['rc'] != 0 and a['out']:
             fail('partial-output-on-failure', 'exit %d with %d bytes on stdout' % (a['rc'], len(a['out'])))
-        if a['rc'] != 0 and not any(d[0] in 'cs' for d in a['diags']):
+        vrefusal = a['diags'] and all(d.split('|', 2)[2].split(':')[0] in ('cannot_define', 'no_separator') for d in a['diags'])
+        if a['rc'] != 0 and not vrefusal and not any(d[0] in 'cs' for d in a['diags']):
             fail('reject-diagnostic-lacks-file-name', 'exit %d but no diagnostic names the configuration file or the template: %r' % (a['rc'], a['diags'][:3]))
         if a['rc'] == 0 and a['diags']:
             fail('diagnostic-on-success', 'exit 0 with diagnostics %r' % a['diags'][:3])
